@@ -358,4 +358,48 @@ theorem map_walk (l : List (K × V)) : AslModel.Map.walk l = some l := by
   unfold AslModel.Map.walk
   rw [map_walkFrom l _ 0 (by omega) (by omega)]; simp
 
+/-! ## sets: the same size invariant -/
+
+theorem foldl_cond_sIns_size (h : K → Nat) (c : K → Bool) (es : List (K × Int)) :
+    ∀ {b : HSet K}, SizeOK b → SizeOK (es.foldl (fun b kv => if c kv.1 then sIns h b kv.1 else b) b) := by
+  induction es with
+  | nil => intro b s; exact s
+  | cons x t ih =>
+    intro b s
+    simp only [List.foldl_cons]
+    split
+    · exact ih (assign_size h 0 s x.1 1)
+    · exact ih s
+
+theorem sAddAll_size (h : K → Nat) {a : HSet K} (s : SizeOK a) (o : HSet K) : SizeOK (sAddAll h a o) := by
+  have := foldl_cond_sIns_size h (fun _ => true) (enum o) s
+  simpa [sAddAll] using this
+
+theorem sFromList_size (h : K → Nat) (xs : List K) : SizeOK (sFromList h xs) := by
+  unfold sFromList
+  suffices ∀ b : HSet K, SizeOK b → SizeOK (xs.foldl (sIns h) b) from this _ default_size
+  induction xs with
+  | nil => intro b s; exact s
+  | cons x t ih => intro b s; exact ih _ (assign_size h 0 s x 1)
+
+theorem sIn_size (h : K → Nat) (a o : HSet K) : SizeOK (sIn h a o) :=
+  foldl_cond_sIns_size h (fun k => has h o k) (enum a) default_size
+
+theorem sNotIn_size (h : K → Nat) (a o : HSet K) : SizeOK (sNotIn h a o) := by
+  unfold sNotIn
+  suffices ∀ (es : List (K × Int)) (b : HSet K), SizeOK b →
+      SizeOK (es.foldl (fun b kv => if has h o kv.1 then b else sIns h b kv.1) b) from this _ _ default_size
+  intro es
+  induction es with
+  | nil => intro b s; exact s
+  | cons x t ih =>
+    intro b s
+    simp only [List.foldl_cons]
+    split
+    · exact ih _ s
+    · exact ih _ (assign_size h 0 s x.1 1)
+
+theorem sUnion_size (h : K → Nat) (a o : HSet K) : SizeOK (sUnion h a o) :=
+  sAddAll_size h (sAddAll_size h default_size a) o
+
 end AslProofs.HashMapEnum
